@@ -359,10 +359,13 @@ func (e *Env) term(v ssa.Value) lin.Term {
 			e.Facts = append(e.Facts, lin.GE(t, lin.Const(-1), "Index ≥ -1"), lin.LT(t, e.lenTerm(x.Call.Args[0]), "Index < len(s)"))
 			e.p.Cfg.use("strings.Index/LastIndex(s,·) ∈ [-1, len(s)-1]")
 			return t
-		case "(*bytes.Buffer).Len":
+		case "(*bytes.Buffer).Len", "(*github.com/apache/thrift/lib/go/thrift.TMemoryBuffer).Len":
 			t := e.fresh(v)
 			e.Facts = append(e.Facts, lin.GE(t, lin.Const(0), "Buffer.Len ≥ 0"))
 			e.p.Cfg.use("bytes.Buffer.Len() ≥ 0")
+			if e.p.Cfg.AssumeLenI32 {
+				e.Facts = append(e.Facts, lin.LE(t, lin.Const(1<<31-1), "assumed: buffers are shorter than 2^31 bytes"))
+			}
 			return t
 		}
 		if n := binaryWidth(c.FullName(), "Uint"); n > 0 {
@@ -931,3 +934,9 @@ func isSliceOrString(t types.Type) bool {
 	}
 	return false
 }
+
+// AddCond adds the fact that boolean value c evaluated to taken.
+func (e *Env) AddCond(c ssa.Value, taken bool) { e.condFacts(c, taken, "guard") }
+
+// LenOf returns the term for len(v).
+func (e *Env) LenOf(v ssa.Value) lin.Term { return e.lenTerm(v) }
